@@ -4,8 +4,10 @@
     * `helpers/introspection.py:get_object_attributes` — `_get_module_object_attributes` (everything
       `dir(mod)` lists) for a module-level suite, `_get_class_object_attributes` (everything `dir(obj)`
       lists whose name does not start with `__` and that is not a property) for a suite class instance;
-    * `suite/core.py:Suite._load_injected_fixtures` — the dict `fixture name → attribute name` built from
-      the attributes that hold an `InjectedFixture` (`fixtures[attr.fixture_name or attr_name] = attr_name`);
+    * `suite/core.py:Suite._load_injected_fixtures` — the dict `fixture name → attribute names` built from
+      the attributes that hold an `InjectedFixture`
+      (`fixtures.setdefault(attr.fixture_name or attr_name, []).append(attr_name)`, the code as repaired by D35:
+      several attributes may inject the same fixture, every one of them receives the value);
     * `Suite.get_injected_fixture_names`, `Suite.get_fixtures`, `Suite.inject_fixtures` and the
       injection step of `runner.build_suite_initialization_task`.
 
@@ -75,20 +77,21 @@ def Attr.key (a : Attr) : String :=
   | none => a.name
   | some f => if f = "" then a.name else f
 
-/-- `d[k] = v` on an insertion-ordered dict: overwrite in place, or append -/
-def dictSet : List (String × String) → String → String → List (String × String)
-  | [], k, v => [(k, v)]
-  | (k', v') :: rest, k, v => if k' = k then (k, v) :: rest else (k', v') :: dictSet rest k v
+/-- `d.setdefault(k, []).append(v)` on an insertion-ordered dict: extend the entry in place, or append a new one -/
+def dictAdd : List (String × List String) → String → String → List (String × List String)
+  | [], k, v => [(k, [v])]
+  | (k', vs) :: rest, k, v => if k' = k then (k', vs ++ [v]) :: rest else (k', vs) :: dictAdd rest k v
 
-/-- `Suite._load_injected_fixtures(obj)`: fixture name ↦ attribute name (attributes in `dir()` order) -/
-def loadInjected (attrs : List Attr) : List (String × String) :=
-  (attrs.filter Attr.discovered).foldl (fun d a => dictSet d a.key a.name) []
+/-- `Suite._load_injected_fixtures(obj)` (as repaired by D35): fixture name ↦ the attribute names injecting it
+    (attributes in `dir()` order) -/
+def loadInjected (attrs : List Attr) : List (String × List String) :=
+  (attrs.filter Attr.discovered).foldl (fun d a => dictAdd d a.key a.name) []
 
-/-- `Suite.get_injected_fixture_names()` -/
+/-- `Suite.get_injected_fixture_names()`: the dict's keys -/
 def injectedNames (attrs : List Attr) : List String := (loadInjected attrs).map (·.1)
 
-/-- the attributes `Suite.inject_fixtures` assigns (`setattr(self.obj, attr_name, value)`) -/
-def assigned (attrs : List Attr) : List String := (loadInjected attrs).map (·.2)
+/-- the attributes `Suite.inject_fixtures` assigns (`for attr_name in …[fixture_name]: setattr(self.obj, attr_name, value)`) -/
+def assigned (attrs : List Attr) : List String := (loadInjected attrs).flatMap (·.2)
 
 /-- the injection step of the suite initialisation task:
     `suite.inject_fixtures(scheduled_fixtures.get_fixture_results(suite.get_injected_fixture_names()))`
